@@ -42,6 +42,15 @@ func outDir() string {
 	return "."
 }
 
+// repoDir is the repository the harness was built against (/repo unless the
+// driver was pointed at a scratch copy for a sensitivity run).
+func repoDir() string {
+	if v := os.Getenv("VERIF_REPO"); v != "" {
+		return v
+	}
+	return "/repo"
+}
+
 func shardInfo() (k, n int) {
 	fmt.Sscanf(os.Getenv("VERIF_SHARD"), "%d", &k)
 	fmt.Sscanf(os.Getenv("VERIF_SHARDS"), "%d", &n)
